@@ -43,11 +43,19 @@ def stream_cases(pid, seed, tier, *, record=None, K=(12, 24), monitor=1.0, fly=0
         "suspenders": {"s0": {"cls": "SuspendBoolHigh", "signal": "sigS", "kwargs": {"sleep": rng.choice([0, 0.5])}}},
         "script": [{"do": "install_suspender", "sus": "s0"}, {"do": "call", "plan": body, "main": True}],
     }
+    # a second suspender on a signal of its own in some worlds (suspensions on top of each other), drawn from a stream
+    # of its own so that the rest of the case does not depend on it
+    rng2 = gen.rng_for(pid, seed, "second-suspender")
+    two = rng2.random() < 0.3
+    if two:
+        specs["sigT"] = {"kind": "signal", "initial": 0}
+        case["suspenders"]["s1"] = {"cls": "SuspendBoolHigh", "signal": "sigT", "kwargs": {"sleep": rng2.choice([0, 0.5])}}
+        case["script"].insert(1, {"do": "install_suspender", "sus": "s1"})
     case["script"].append({"do": "put", "signal": "sig1", "value": 99})  # an update at idle must reach nobody
     case["script"].append({"do": "call", "plan": [msg(S, "null")], "tag": "followup-null"})
     dry, dv, n = generic.dry_run(case)
     yield case
-    ci = 1
+    ci = generic.main_index(case)
     kk = K[0] if tier == "quick" else K[1]
     kinds = kinds or ["pause", "pause", "trip", "put", "put", "put"]
     val = [100]
@@ -56,6 +64,12 @@ def stream_cases(pid, seed, tier, *, record=None, K=(12, 24), monitor=1.0, fly=0
         for i in inj:
             if i["do"] == "trip":
                 i["args"] = generic.trip_args(rng)
+                if two and rng2.random() < 0.5:
+                    i["args"]["signal"] = "sigT"
+                if two and rng2.random() < 0.2:
+                    # the signal flaps (never twice in the same instant: one device thread delivers its updates in turn)
+                    i["args"]["after"] = i["args"]["after"] or 0.05
+                    i["args"]["then"] = [[rng2.choice([0.05, 0.1, 0.4, 1.0]), 1], [rng2.choice([0.05, 0.2, 1.0]), 0]]
             elif i["do"] == "put":
                 val[0] += 1
                 i["args"] = {"signal": "sig1", "value": val[0]}
